@@ -771,10 +771,13 @@ class EvolutionarySolver(RandomSearchSolver):
         ]
 
         for edge in edges:
-            possible_edges = set(edges) - circuit.find_incompatible_edges(edge)
+            # keep the order of edge_dict: iterating over a set of edges (tuples that contain node names) would make
+            # the candidate order, and with it a seeded run, depend on the interpreter's string hash seed
+            incompatible_edges = circuit.find_incompatible_edges(edge)
 
-            for another_edge in possible_edges:
-                edge_pair.append((edge, another_edge))
+            for another_edge in edges:
+                if another_edge not in incompatible_edges:
+                    edge_pair.append((edge, another_edge))
 
         return edge_pair
 
@@ -808,10 +811,12 @@ class EvolutionarySolver(RandomSearchSolver):
         ]
 
         for edge in e_edges:
-            possible_edges = set(p_edges) - circuit.find_incompatible_edges(edge)
+            # keep the order of edge_dict (see _select_possible_cnot_position)
+            incompatible_edges = circuit.find_incompatible_edges(edge)
 
-            for another_edge in possible_edges:
-                edge_pair.append((edge, another_edge))
+            for another_edge in p_edges:
+                if another_edge not in incompatible_edges:
+                    edge_pair.append((edge, another_edge))
 
         return edge_pair
 
